@@ -29,4 +29,56 @@ mod __verif_kani {
     bw_case!(c13_broadword_window_word_edge, 16, 5, 5);
     //@ kind=B props=C13 bound=all_inputs_of_length_4 fn=text::utf8::broadword::accepts,validate_sequence : every byte string of length 4
     bw_case!(c13_broadword_len4, 4, 0, 4);
+
+    // ---- the three byte-level contracts the Verus unit c13_broadword uses as stubs (seam R4)
+    fn byte_of(w: u64, k: usize) -> u8 { ((w >> (8 * k)) & 0xff) as u8 }
+
+    //@ kind=B props=C13 bound=buffer_len<=19,every_pos:usize fn=text::utf8::broadword::load_word : for every position (incl. huge, overflowing ones) in a 19-byte buffer at every sub-length: Some exactly when 8 bytes remain, and memory byte k of the word is input[pos+k] (contract of the Verus stub; loop-free in pos, buffer length symbolic up to 19)
+    #[kani::proof]
+    #[kani::unwind(10)]
+    pub fn c13_bw_load_word() {
+        let b: [u8; 19] = kani::any();
+        let n: usize = kani::any(); kani::assume(n <= 19);
+        let input = &b[..n];
+        let pos: usize = kani::any();
+        match load_word(input, pos) {
+            None => assert!(pos > n || n - pos < 8),
+            Some(w) => {
+                assert!(pos <= n && n - pos >= 8);
+                let k: usize = kani::any(); kani::assume(k < 8);
+                assert!(byte_of(w, k) == input[pos + k]);
+            }
+        }
+    }
+
+    //@ kind=B props=C13 bound=buffer_len<=43,every_pos:usize fn=text::utf8::broadword::load_block : for every position in a 43-byte buffer at every sub-length: Some exactly when 32 bytes remain, and (acc & HI == 0) exactly when all 32 bytes are ASCII (contract of the Verus stub)
+    #[kani::proof]
+    #[kani::unwind(34)]
+    pub fn c13_bw_load_block() {
+        let b: [u8; 43] = kani::any();
+        let n: usize = kani::any(); kani::assume(n <= 43);
+        let input = &b[..n];
+        let pos: usize = kani::any();
+        match load_block(input, pos) {
+            None => assert!(pos > n || n - pos < 32),
+            Some(acc) => {
+                assert!(pos <= n && n - pos >= 32);
+                let mut all_ascii = true; let mut k = 0;
+                while k < 32 { if input[pos + k] > 0x7F { all_ascii = false; } k += 1; }
+                assert!((acc & HI == 0) == all_ascii);
+            }
+        }
+    }
+
+    //@ kind=P props=C13 fn=text::utf8::broadword::first_high_byte : for every non-zero mask of high bits: the result is < 8, names a byte whose high bit is set, and every earlier memory byte is clear (contract of the Verus stub; all 2^64 words, loop-free)
+    #[kani::proof]
+    pub fn c13_bw_first_high_byte() {
+        let hi: u64 = kani::any();
+        kani::assume(hi != 0 && hi & !HI == 0);
+        let r = first_high_byte(hi);
+        assert!(r < 8);
+        assert!(byte_of(hi, r) == 0x80);
+        let k: usize = kani::any(); kani::assume(k < r);
+        assert!(byte_of(hi, k) == 0);
+    }
 }
